@@ -20,6 +20,7 @@
 -/
 import KavaVerif.Proofs.CdpExample
 import KavaVerif.Proofs.CdpGov
+import KavaVerif.Proofs.CdpAuctions
 import KavaVerif.Generated.CdpFacts
 set_option linter.unusedSimpArgs false
 set_option linter.unusedVariables false
@@ -341,6 +342,86 @@ example : sumShares 2000000000 10000003 10000003 [(3, 1000000000), (4, 100000000
     (beginBlock exEnv 102 false [Dec.one] exTwoDeposits).isOk = true ∧
     (apply exEnv exTwoDeposits (.beginBlock 102 false [Dec.one])).bal MAUC DEBT = 10000003 ∧
     ((apply exEnv exTwoDeposits (.beginBlock 102 false [Dec.one])).cdp 1).isNone = true := by
+  decide +kernel
+
+/-! ### the auctions of a seizure, lot by lot (`AuctionCollateral`, `CreateAuctionsFromDeposit`) -/
+
+/-- One deposit `c > 0` with debt share `d ≥ 0`, auction size `A > 0`: `CreateAuctionsFromDeposit` creates
+    `⌈c / A⌉` auctions whose lots add up to exactly the deposit and whose corresponding debts add up to exactly the
+    share; every lot is returned to the depositor, is positive and at most `A`; its debt is its proportional share
+    `d·lot / c` rounded down or up; and its max bid is its own debt plus the liquidation penalty ON ITS OWN DEBT
+    (`round-half-even(debt_i · penalty)`), lot by lot. -/
+theorem C05_seize_lots_deposit (ret : Acct) (c d A : Int) (pen : Dec) (hc : 0 < c) (hd : 0 ≤ d) (hA : 0 < A) :
+    ∃ L, createAuctions ret c d A pen = .ok L ∧
+      lotSum L = c ∧ lotDebtSum L = d ∧ (L.length : Int) = (c + A - 1) / A ∧
+      (∀ x ∈ L, x.ret = ret ∧ 0 < x.lot ∧ x.lot ≤ A ∧ 0 ≤ x.debt ∧
+        d * x.lot / c ≤ x.debt ∧ x.debt ≤ d * x.lot / c + 1 ∧ x.maxBid = x.debt + penaltyOf x.debt pen) := by
+  obtain ⟨L, h, sp⟩ := createAuctions_spec ret c d A pen hc hd hA
+  exact ⟨L, h, sp.lotSum, sp.lotDebtSum, sp.count, sp.each⟩
+
+/-- … and only the last lot may be smaller than the auction size: `c / A` whole lots of exactly `A`, the first `k`
+    of them carrying `⌊d·A / c⌋ + 1` and the others `⌊d·A / c⌋` (largest-remainder distribution: any two whole lots
+    differ by at most one unit of debt, the extra units go to the lots created first), then — iff `A` does not divide
+    `c` — one lot `c % A` carrying `⌊d·(c % A) / c⌋` or that plus one. -/
+theorem C05_seize_lots_shape (ret : Acct) (c d A : Int) (pen : Dec) (hc : 0 < c) (hd : 0 ≤ d) (hA : 0 < A) :
+    ∃ L, createAuctions ret c d A pen = .ok L ∧
+      (∃ (W last : List Lot) (k : Nat), L = W ++ last ∧ (W.length : Int) = c / A ∧ k ≤ W.length ∧
+        (∀ x ∈ W, x.lot = A) ∧
+        W.map (·.debt) = List.replicate k (d * A / c + 1) ++ List.replicate (W.length - k) (d * A / c) ∧
+        ((last = [] ∧ c % A = 0) ∨
+         (∃ x, last = [x] ∧ x.lot = c % A ∧ 0 < x.lot ∧ x.lot < A ∧
+            (x.debt = d * (c % A) / c ∨ x.debt = d * (c % A) / c + 1)))) ∧
+      (∀ x ∈ L, ∀ y ∈ L, x.lot = A → y.lot = A → x.debt - y.debt ≤ 1 ∧ y.debt - x.debt ≤ 1) := by
+  obtain ⟨L, h, sp⟩ := createAuctions_spec ret c d A pen hc hd hA
+  exact ⟨L, h, sp.shape, fun x hx y hy hxl hyl => sp.spread x y hx hy hxl hyl⟩
+
+/-- "A seizure removes the whole position, and exactly its collateral (minus the keeper reward) and its debt enter
+    auctions", lot by lot: the auctions `SeizeCollateral` creates from the deposit records `deps` (all positive) and
+    the debt `debt` it moved to the liquidator have lots that add up to exactly the deposits and corresponding debts
+    that add up to exactly the debt; they are, deposit by deposit in depositor order, the lots of
+    `C05_seize_lots_deposit` for exactly the amounts the state machine of `C05_seize_whole` moves for that deposit
+    (`LotsOfDeps`: the deposit and its capped share of the debt); every lot goes back to one of the depositors, is at
+    most the auction size, and asks for its own debt plus the penalty on its own debt. -/
+theorem C05_seize_lots (A : Int) (pen : Dec) (deps : List (Acct × Int)) (debt : Int) (hA : 0 < A) (hd : 0 ≤ debt)
+    (hne : deps ≠ []) (hpos : ∀ a v, (a, v) ∈ deps → 0 < v) :
+    ∃ L, seizeLots A pen deps debt = .ok L ∧ LotsOfDeps A pen (sumDeps deps) debt debt deps L ∧
+      lotSum L = sumDeps deps ∧ lotDebtSum L = debt ∧
+      (∀ x ∈ L, x.ret ∈ deps.map Prod.fst ∧ 0 < x.lot ∧ x.lot ≤ A ∧ 0 ≤ x.debt ∧
+        x.maxBid = x.debt + penaltyOf x.debt pen) :=
+  seizeLots_spec A pen deps debt hA hd hne hpos
+
+/-- "(minus the keeper reward)": the records a keeper liquidation hands to the seizure are the stored records with
+    the reward taken out of exactly one of them (or unchanged when no single deposit can pay it) -/
+theorem C05_seize_lots_keeper_reward (r : Int) (deps : List (Acct × Int)) :
+    sumDeps (depsAfterReward (some r) deps) = sumDeps deps - r ∨ depsAfterReward (some r) deps = deps :=
+  depsAfterReward_sum r deps
+
+/-- non-vacuity (the input of seeded change C05 round 5): 0.35 btc-sized deposit, auction size 0.1, debt share
+    1820000071, penalty 2.5 %: three whole lots and a remainder lot; debt per whole lot 520000020, one unit left over
+    goes to the FIRST lot, whose penalty is `round(520000021 · 0.025) = round(13000000.525) = 13000001` while the
+    others pay `round(13000000.5) = 13000000` (half-even): max bids 533000022, 533000020, 533000020, 266500010 -/
+example : lotsOrNil (createAuctions 3 35000000 1820000071 10000000 ⟨25000000000000000⟩) =
+    [⟨3, 10000000, 520000021, 533000022⟩, ⟨3, 10000000, 520000020, 533000020⟩,
+     ⟨3, 10000000, 520000020, 533000020⟩, ⟨3, 5000000, 260000010, 266500010⟩] ∧
+    penaltyOf 520000021 ⟨25000000000000000⟩ = 13000001 ∧ penaltyOf 520000020 ⟨25000000000000000⟩ = 13000000 := by
+  decide +kernel
+
+/-- non-vacuity, the largest-remainder rule.  Deposit 25, auction size 10, debt 7: whole lots 2.8 → 2 each (error
+    20/25), remainder lot 1.4 → 1 (error 10/25), two units left over: the whole lots have the larger error and take
+    both — (10, 3) (10, 3) (5, 1); at 50 % penalty `round(1.5) = 2`, `round(0.5) = 0` (half-even).  Deposit 15, debt 8:
+    whole 5.33 → 5, remainder 2.67 → 2, one unit left and the remainder's error is the larger: (10, 5) (5, 3).
+    A zero debt share gives lots with debt 0 and max bid 0; a zero deposit is a Go panic (division by zero). -/
+example : lotsOrNil (createAuctions 3 25 7 10 ⟨500000000000000000⟩) =
+      [⟨3, 10, 3, 5⟩, ⟨3, 10, 3, 5⟩, ⟨3, 5, 1, 1⟩] ∧
+    lotsOrNil (createAuctions 3 15 8 10 ⟨500000000000000000⟩) = [⟨3, 10, 5, 7⟩, ⟨3, 5, 3, 5⟩] ∧
+    lotsOrNil (createAuctions 3 20 0 10 ⟨500000000000000000⟩) = [⟨3, 10, 0, 0⟩, ⟨3, 10, 0, 0⟩] ∧
+    (createAuctions 3 0 5 10 ⟨500000000000000000⟩).isOk = false := by
+  decide +kernel
+
+/-- non-vacuity, a whole seizure: two depositors (25 and 10), debt 11, auction size 10, penalty 50 %: shares
+    `round(25/35 · 11) = 8` and the remainder 3; lots (10,3) (10,3) (5,2) for the first, (10,3) for the second -/
+example : lotsOrNil (seizeLots 10 ⟨500000000000000000⟩ [(3, 25), (5, 10)] 11) =
+    [⟨3, 10, 3, 5⟩, ⟨3, 10, 3, 5⟩, ⟨3, 5, 2, 3⟩, ⟨5, 10, 3, 5⟩] := by
   decide +kernel
 
 end KV.Cdp
